@@ -88,6 +88,9 @@ def alphabet(tier):
         c("listexec-" + n, "ListExecutions", {"stateMachineArn": sm(n)})
     c("listexec-ma-succeeded", "ListExecutions", {"stateMachineArn": sm("ma"), "statusFilter": "SUCCEEDED"})
     c("listexec-ma-running", "ListExecutions", {"stateMachineArn": sm("ma"), "statusFilter": "RUNNING"})
+    for f in ("FAILED", "TIMED_OUT", "ABORTED"):
+        c("listexec-ma-" + f.lower(), "ListExecutions", {"stateMachineArn": sm("ma"), "statusFilter": f})
+    c("listexec-mb-succeeded", "ListExecutions", {"stateMachineArn": sm("mb"), "statusFilter": "SUCCEEDED"})
     c("listexec-badarn", "ListExecutions", {"stateMachineArn": "x"}, {"InvalidArn"})
     c("smforexec-ma-e1", "DescribeStateMachineForExecution", {"executionArn": ex("ma", "e1")})
     c("smforexec-ma-e9", "DescribeStateMachineForExecution", {"executionArn": ex("ma", "e9")})
